@@ -367,7 +367,7 @@ def Multinomial.ln_pmf? (self : Multinomial α) (x : List Int) : Option α :=
   else
     let coeff : α := RFun.ln (SF.multinomial self.f_n x : α)
     let val := coeff +
-      ((List.zip self.f_p x).map (fun (pi_xi : α × Int) => (RFun.ofInt pi_xi.2 : α) * RFun.ln pi_xi.1)).foldl
+      ((List.zip self.f_p x).map (fun (pi_xi : α × Int) => if pi_xi.2 = 0 then (0.0 : α) else (RFun.ofInt pi_xi.2 : α) * RFun.ln pi_xi.1)).foldl
         (fun acc x => acc + x) (0.0 : α)
     some val
 
